@@ -456,12 +456,17 @@ impl Family for C13Thr {
     true
   }
   fn gen(&self, rng: &mut Rng, _tier: Tier) -> Json {
-    let n = rng.range(2, 3);
+    let n = rng.range(2, 4);
+    // some subscribers stay while the others leave and the source goes on emitting
+    let emit_during_leave = rng.below(2) == 0;
     Json::obj(vec![
       ("kind", Json::str(*rng.pick(&["ref_count", "replay"]))),
       ("waits", Json::Arr((0..n).map(|_| Json::Int(rng.below(6) as i64)).collect())),
       ("leave_waits", Json::Arr((0..n).map(|_| Json::Int(rng.below(6) as i64)).collect())),
       ("share_observable", Json::Bool(rng.below(2) == 0)),
+      ("stay", Json::Arr((0..n).map(|_| Json::Bool(emit_during_leave && rng.below(2) == 0)).collect())),
+      ("emit_during_leave", Json::Bool(emit_during_leave)),
+      ("emitter_wait", Json::Int(rng.below(8) as i64)),
     ])
   }
   fn exec(&self, w: &Json, cfg: RunCfg) -> RunOut {
@@ -477,6 +482,14 @@ impl Family for C13Thr {
     }
     leave.resize(n, 0);
     let share = w.b("share_observable");
+    let emit_during_leave = w.get("emit_during_leave").is_some() && w.b("emit_during_leave");
+    let mut stay: Vec<bool> = w.a("stay").iter().map(|x| x.as_bool().unwrap_or(false)).collect();
+    stay.resize(n, false);
+    if !emit_during_leave {
+      stay.iter_mut().for_each(|s| *s = false);
+    }
+    let emitter_wait = if w.get("emitter_wait").is_some() { w.i("emitter_wait").clamp(0, 30) } else { 0 };
+    let stay2 = stay.clone();
     let recs: Vec<Recorder> = (0..n).map(|_| Recorder::new()).collect();
     let src_log = Arc::new(Mutex::new(SrcLog::default()));
     // (after all subscribed: subscriptions, live), (after all left: live)
@@ -509,7 +522,20 @@ impl Family for C13Thr {
       hot.step_all(&Step::N(10));
       hot.step_all(&Step::N(11));
       let mut hs = Vec::new();
+      if emit_during_leave {
+        let hot = hot.clone();
+        hs.push(rt::spawn_harness("emitter", move || {
+          for _ in 0..emitter_wait {
+            rt::probe("c13-emitter-wait");
+          }
+          hot.step_all(&Step::N(12));
+          hot.step_all(&Step::N(13));
+        }));
+      }
       for i in 0..recs2.len() {
+        if stay2[i] {
+          continue;
+        }
         let (subs, wt) = (subs.clone(), leave[i]);
         hs.push(rt::spawn_harness("leaver", move || {
           for _ in 0..wt {
@@ -524,6 +550,15 @@ impl Family for C13Thr {
       for h in hs {
         let _ = h.join();
       }
+      // the ones that stayed leave at the end
+      for i in 0..recs2.len() {
+        if stay2[i] {
+          let s = subs.lock().unwrap()[i].clone();
+          if let Some(s) = s {
+            s.unsubscribe();
+          }
+        }
+      }
       snap2.lock().unwrap().push((hot.n_subscribed(), live(&hot)));
     });
     let blame = kind.as_str();
@@ -536,8 +571,22 @@ impl Family for C13Thr {
       for (i, r) in recs.iter().enumerate() {
         let got: Vec<Ev> = r.events().into_iter().map(|e| e.ev).collect();
         history.push(format!("subscriber {}: {}", i, got.iter().map(|e| e.show()).collect::<Vec<_>>().join(" ")));
-        if got != vec![Ev::Next(Val::Int(10)), Ev::Next(Val::Int(11))] {
-          v.push(Violation::new("delivery-differs", blame, format!("{} subscribers arrived concurrently, then the source emitted 10, 11; subscriber {} received [{}]", n, i, got.iter().map(|e| e.show()).collect::<Vec<_>>().join(" "))));
+        let all: Vec<Ev> = if emit_during_leave { vec![10, 11, 12, 13] } else { vec![10, 11] }.into_iter().map(|x| Ev::Next(Val::Int(x))).collect();
+        // one that stayed sees everything; one that left while 12, 13 were emitted sees a prefix
+        let ok = if stay[i] || !emit_during_leave { got == all } else { got.len() >= 2 && all.starts_with(&got) };
+        if !ok {
+          v.push(Violation::new(
+            "delivery-differs",
+            blame,
+            format!(
+              "{} subscribers arrived concurrently, then the source emitted 10, 11{}; subscriber {} ({}) received [{}]",
+              n,
+              if emit_during_leave { " and, while the others left, 12, 13" } else { "" },
+              i,
+              if stay[i] { "stayed" } else { "left" },
+              got.iter().map(|e| e.show()).collect::<Vec<_>>().join(" ")
+            ),
+          ));
         }
       }
       if let Some((subs, live)) = snap.first() {
